@@ -129,13 +129,13 @@ CLAIMED = {
             "coupon-paying securities, run-steps and btday on leveraged programs (run / no-run decision per day, bit-exact). Monitors: flag vs an independently recomputed total on every update, "
             "positions / value / cash after the bankruptcy date, spy algo call log, sub-strategies and FI roots never flagged.",
             "DESIGN 7 C16"),
-    "C18": ("24 theorems (Lean 4, any linearly ordered field, snapshots of any tree with the root first, runs of any length) about an executable model of the report functions as the code computes them (Backtest.weights / security_weights / positions / herfindahl_index / turnover, StrategyBase.positions / outlays / get_transactions, Result.prices) and of ReplayTransactions: weights = value (notional under a fixed-income root) over the root's; aggregation of same-named securities is a per-name sum, one column per name, invariant under permutation of the members; given the C01 balance identity of a date as hypothesis, aggregated security weights + all strategies' cash fractions = 1 for a non-zero root value; positions aggregate per ticker; the listed quantities of a ticker telescope to its recorded aggregated position on every date of every run, every row is non-zero; listed price = market price + bid/offer paid / quantity = outlay / quantity = price +/- half spread for a date's only trade (multiplier 1, one security of that name); turnover = min(purchases, sales) / root VALUE with outlays aggregated per ticker first (NaN without securities); HHI = sum of squared aggregated weights; Result price series = the root's _prices rows. Replay: replay_day_reproduces + replay_reproduces_partial (induction over dates): with at most one trade per security and date, multiplier 1 (or no spread) and a commission that does not change on the spread-inclusive price, replaying the rows listedRow(trade) in the list's order reproduces positions and cash (hence values) after every date, whatever the execution order; partial: the rows are tied to get_transactions per row (txnRow_of_single_trade) and per quantity (transactions_cumulate), not composed into one statement about `transactions` of recorded histories. Lean witnesses (decide over Q) of the general statement failing: same-date round trip vanishing from the list, price-dependent commission with a spread, multiplier in the listed price, spread of a shared ticker dropped, turnover NaN without securities. Correspondence `report`: whole generated backtests (flat/nested, shared tickers, fixed-income roots with the five security classes, multipliers, commissions, spreads, no-trade runs, same-date round trips, flows) run on the real code; node histories read from the private series, sent to the model as bit patterns; every real report compared cell by cell (so far all bit-identical). Correspondence `replay`: the real replaying backtest's cash/positions/values vs the model of the algo. Monitor written from the property text (numpy + external trade log): every clause incl. sum-to-one, cumulated quantities vs recorded positions per ticker and per security node vs executed trades, prices = executed cash / (quantity x multiplier), and a second real backtest replaying the list. Known findings: see known_findings.json (C18/*).",
+    "C18": ("25 theorems (Lean 4, any linearly ordered field, snapshots of any tree with the root first, runs of any length) about an executable model of the report functions as the code computes them (Backtest.weights / security_weights / positions / herfindahl_index / turnover, StrategyBase.positions / outlays / get_transactions, Result.prices) and of ReplayTransactions: weights = value (notional under a fixed-income root) over the root's; aggregation of same-named securities is a per-name sum, one column per name, invariant under permutation of the members; given the C01 balance identity of a date as hypothesis, aggregated security weights + all strategies' cash fractions = 1 for a non-zero root value; positions aggregate per ticker; the listed quantities of a ticker telescope to its recorded aggregated position on every date of every run, every row is non-zero; listed price = market price + (sum over the securities of that name of bid/offer paid / multiplier) / net quantity, = outlay / (quantity x multiplier) = price +/- half spread for a date's only trade of the ticker (any multiplier, any number of same-named securities); turnover = min(purchases, sales) / root VALUE with outlays aggregated per ticker first, 0 without securities; HHI = sum of squared aggregated weights; Result price series = the root's _prices rows. Replay: replay_reproduces_positions (every run whose replay completes: positions = recorded aggregated positions, composed with `transactions`); replay_day_reproduces + replay_reproduces_partial (induction over dates): with at most one trade per security and date, a non-zero multiplier and a commission that does not change on the spread-inclusive price, replaying the rows listedRow(trade) in the list's order reproduces positions and cash (hence values) after every date, whatever the execution order; partial: for cash/values the rows are tied to get_transactions per row (txnRow_of_single_trade), not composed into one statement about `transactions` of recorded histories. Lean witnesses (decide over Q) of the general replay statement failing (same-date round trip vanishing from the list, price-dependent commission with a spread) and of the three repaired formulas (explicitly named old formulas). Correspondence `report`: whole generated backtests (flat/nested, shared tickers, fixed-income roots with the five security classes, multipliers, commissions, spreads, no-trade runs, same-date round trips, flows) run on the real code; node histories read from the private series, sent to the model as bit patterns; every real report compared cell by cell (so far all bit-identical). Correspondence `replay`: the real replaying backtest's cash/positions/values vs the model of the algo. Monitor written from the property text (numpy + external trade logs of both runs): every clause incl. sum-to-one, cumulated quantities vs recorded positions per ticker and per security node vs executed trades, prices = executed cash / (quantity x multiplier), and a second real backtest replaying the list; a value difference is keyed by its cause read off the cash each (ticker, date) took in the two runs. Known findings: C18/replay-values:round-trip, :split-trades, :spread-and-price-commission.",
             "DESIGN 7 C18"),
 }
 # pid -> reason it is not claimed (yet)
 NOT_YET = {}
 # slices merged but not yet claimed (being brought in line with a repair)
-HOLD = {"C18"}
+HOLD = set()
 
 
 def main():
